@@ -1,5 +1,5 @@
 (* C04 — every destination receives exactly its configured share. *)
-From C4E Require Import Base Minter Distributor DistrCoins DistrProofs Drift Books DistrNz Ledger LedgerProofs LedgerOrder LedgerUpdates.
+From C4E Require Import Base Minter Distributor DistrCoins DistrProofs Drift Books DistrNz Ledger LedgerProofs LedgerOrder LedgerUpdates PaidOut.
 From C4EProps Require C03.
 Open Scope Z_scope.
 
@@ -156,3 +156,27 @@ Theorem C04_credited_amounts_do_not_depend_on_the_order_of_the_sources :
               unbooked (dw_states w1) (wbank w1) d = unbooked (dw_states w2) (wbank w2) d.
 Proof. exact credited_amounts_independent_of_source_order. Qed.
 Print Assumptions C04_credited_amounts_do_not_depend_on_the_order_of_the_sources.
+
+(* receipts, not only books: in a block in which no bank call fails, every whole unit recorded for a module or base account — or
+   for burning — leaves the main account in that block: afterwards the stored state of every payable account keeps at least zero
+   and less than one unit per denomination.  With the credited-amounts theorems above: what a destination has received trails what
+   it has been credited (share times inflow, fractions carried) by less than one base unit *)
+Theorem C04_fault_free_block_pays_out_every_whole_unit :
+  forall (bk : Z) (Known : dacct -> Prop),
+  (forall a, Known a -> da_key a <> bk) ->
+  (forall a a', Known a -> Known a' -> da_key a = da_key a' -> da_id a = da_id a') ->
+  forall w, winv bk Known w ->
+  exists w' evs n, dist_begin_block w [] = Ok (w', evs, n) /\ winv bk Known w' /\ Forall settled (dw_states w').
+Proof. exact fault_free_block_pays_whole_units. Qed.
+Print Assumptions C04_fault_free_block_pays_out_every_whole_unit.
+
+(* non-vacuity: C03's example world meets the hypotheses *)
+Example C04_paid_out_example :
+  exists w' evs n, dist_begin_block C4EProps.C03.ex_dworld [] = Ok (w', evs, n) /\ Forall settled (dw_states w').
+Proof.
+  destruct (fault_free_block_pays_whole_units 9 C4EProps.C03.ex_known) with (w := C4EProps.C03.ex_dworld) as (w' & evs & n & E & _ & H).
+  - intros a [H1 H2]. lia.
+  - intros a a' [H1 _] [H1' _] H. lia.
+  - exact (proj1 C4EProps.C03.C03_example_world_satisfies_invariant).
+  - exists w', evs, n. split; assumption.
+Qed.
